@@ -263,9 +263,12 @@ SPECS = {
     "C01": dict(fn=c01, level="proof", components=["K4", "K5", "K6", "K7", "K1", "K2"], assumptions=MOL_ASSUME,
                 claim="Theorem tucan_invariant: for every oracle meeting the bliss contract (H1, H2), any two descriptions of one molecule (renaming, listing orders, bond orientation, payload) "
                       "give the same string; proved through label independence of the refinement, uniqueness of the canonical view, and serialize_depends_on_view_only "
-                      "(worklist traversal, sort by Z, Hill formula, tuples, attribute blocks read the graph only through sorted / order-independent views). Unbounded in size and relabelling.",
+                      "(worklist traversal, sort by Z, Hill formula, tuples, attribute blocks read the graph only through sorted / order-independent views). Unbounded in size and relabelling. "
+                      "Lifted to molfile descriptions (Proofs/Descriptions.v): tucan_descriptions (any two texts the reader accepts whose graphs are one molecule up to renaming) and "
+                      "tucan_v3000_renumbered / tucan_v2000_renumbered / tucan_v2000_v3000_renumbered (renderings, under any spelling choices, of a molecule and of its renumbered, relisted, bond-reversed copy).",
                 note=NOTE_MODEL, design_ref="DESIGN.md 4.1",
-                rule="same stream + exhaustive small scope grouped by string against brute-force isomorphism classes; strings of relistings compared byte for byte; non-trivial as for C13"),
+                rule="same stream + exhaustive small scope grouped by string against brute-force isomorphism classes; strings of relistings compared byte for byte; "
+                     "+ molfile descriptions: V2000 / V3000 texts of one molecule renumbered, relisted, bonds reversed, random spelling knobs, 2..999 atoms (three-digit atom numbers); non-trivial as for C13"),
     "C02": dict(fn=c02, level="proof", components=["K5", "K7", "K8"], assumptions=MOL_ASSUME,
                 claim="Theorem tucan_complete: for every oracle returning a bijection (H1), two molecules with the same emitted string are related by a colour-preserving isomorphism "
                       "(SameMol); corollary of the character-level round trip ref_parse(tucan m) ~ m. Unbounded. The falsifier groups every molecule of the run by string and compares with "
@@ -281,9 +284,12 @@ SPECS = {
     "C05": dict(fn=c05, level="proof", components=["K7", "K1", "K2"], assumptions=MOL_ASSUME,
                 claim="Theorem tucan_in_grammar: every emitted string is the spelling of a sentence of the inductive transcription of the published EBNF (tables regenerated from tucan.ebnf/.g4) "
                       "and lexes back to the same tokens; layout facts (Hill order, counts, a<b, ascending tuples and blocks, positive values) follow from ast_of / ser_ready. "
+                      "Reader side (Proofs/EndToEnd.v, ReadersNoZero.v): molfile_text_in_grammar / molfile_text_layout hold for EVERY text the model reader accepts with at least one atom "
+                      "(the readers never return a self-bond, a zero or a negative mass/radical: theorems). "
                       "The falsifier judges every emitted string with an independent regex/counting validator written from the EBNF text.",
                 note=NOTE_MODEL, design_ref="DESIGN.md 4.5",
-                rule="same stream; every emitted string judged by harness/validator.py (regex + counting from the EBNF text); non-trivial as for C13"),
+                rule="same stream; every emitted string judged by harness/validator.py (regex + counting from the EBNF text); + reader-side stream: V2000/V3000 renderings and the "
+                     "malformed streams of both formats (self-bonds, negative values, ...): whenever the reader accepts, the emitted string must validate and parse; non-trivial as for C13"),
 }
 
 
